@@ -84,7 +84,12 @@ fn check_project_wiring<const D: usize>(from: [usize; D], to: [usize; D]) {
     }
     let scs = Scs::new(data.clone(), Shp(from.to_vec())).unwrap();
     let out = scs.project(Shp(to.to_vec())).unwrap();
-    assert!(out.shape().as_ref() == &to[..], "projected spectrum has the target shape");
+    let mut j = 0;
+    while j < D {
+        assert!(out.shape()[j] == to[j], "projected spectrum has the target shape");
+        j += 1;
+    }
+    assert!(out.dimensions() == D, "projected spectrum has the target number of axes");
     let mut q = 0;
     while q < m {
         // target multi-index of q
